@@ -44,3 +44,13 @@ def registers(ctx, P):
     from rules import c04
     _ensure(ctx, P + "/regs-source", lambda n: c04.rule_regs_source(ctx, R=n))
     _ensure(ctx, P + "/ptrace-requests", lambda n: c04.rule_ptrace_requests(ctx, R=n))
+
+
+def image_builder(ctx, P):
+    """the image is built by appending: allocations record the mark before growing and grow by n * size, elements live at
+    position + size * i, in-place writes stay inside their slot, and a string is its 2 * len header plus len UTF-16 units"""
+    from rules import c16
+    _ensure(ctx, P + "/builder-append-law", lambda n: c16.rule_append_law(ctx, R=n))
+    _ensure(ctx, P + "/builder-slots", lambda n: c16.rule_slot_siblings(ctx, R=n))
+    _ensure(ctx, P + "/builder-write-window", lambda n: c16.rule_write_at_window(ctx, R=n))
+    _ensure(ctx, P + "/builder-position-owner", lambda n: c16.rule_position_owner(ctx, R=n))
